@@ -272,6 +272,57 @@ def analyze(ctx, want):
         else:
             ok = "position" in S.vstr(r)
             ob("C02.f", "known-class-id-is-its-position", ok, "known class gets id %s" % S.vstr(r)[:120], ac.loc())
+    # dedup equality: equal ids must imply equal predicates (ComparableAst::eq compares exactly what the predicate is built from)
+    ce = F.fn(r"ComparableAst as std::cmp::PartialEq>::eq$")
+    ctx.analysed_fn(ce)
+    ex, paths = run_fn(ce, F, BaseModel())
+    rows = {}
+    for p in ret_paths(paths):
+        ds = [(c, o) for c, o in p.conds if c[0] == "discr"]
+        if not ds:
+            continue
+        def vname(c, o):
+            nm = dict((dv, n) for n, dv in c[2])
+            return nm.get(o) if not isinstance(o, tuple) else "other"
+        a = vname(*ds[0])
+        b = vname(*ds[1]) if len(ds) > 1 else None
+        r = p.end[1]
+        extra = [(S.fstr(c), o) for c, o in p.conds if c[0] != "discr"]
+        rows.setdefault((a, b), []).append((extra, r))
+    def same_variant_rows(v):
+        return rows.get((v, v), [])
+    for v in ("ClassUnicode", "ClassPerl", "ClassBracketed"):
+        rs = same_variant_rows(v)
+        ok = len(rs) == 1 and rs[0][1][0] == "binop" and rs[0][1][1] == "Eq" and "self.0" in S.fstr(rs[0][1][2]) and "other.0" in S.fstr(rs[0][1][3]) and not rs[0][0]
+        if ok:
+            # both sides are the same function of the printed AST
+            l_, r_ = S.fstr(rs[0][1][2]).replace("self.0", "X"), S.fstr(rs[0][1][3]).replace("other.0", "X")
+            ok = l_ == r_
+        ob("C02.f", "class-dedup-equality:%s-compares-the-printed-ast" % v, ok, "eq := %s" % (S.fstr(rs[0][1])[:120] if rs else None), ce.loc())
+    rs = same_variant_rows("Literal")
+    fields = set()
+    for extra, r in rs:
+        for t, o in extra:
+            for f_ in re.findall(r"Literal\)\.0\.(\w+)", t):
+                fields.add(f_)
+        for f_ in re.findall(r"Literal\)\.0\.(\w+)", S.fstr(r)):
+            fields.add(f_)
+    ob("C02.f", "class-dedup-equality:Literal-compares-char-and-kind", fields == {"c", "kind"} and any(r == ("bool", False) for _, r in rs), "literal equality reads %s" % sorted(fields), ce.loc())
+    for v in ("Dot", "Empty"):
+        rs = same_variant_rows(v)
+        if rs:
+            ob("C02.f", "class-dedup-equality:%s" % v, all(r == ("bool", True) for _, r in rs), "eq := %s" % [S.fstr(r) for _, r in rs], ce.loc())
+    mixed = [(k, [S.fstr(r) for _, r in v_]) for k, v_ in rows.items() if k[0] != k[1] or k[0] == "other"]
+    ob("C02.f", "class-dedup-equality:different-kinds-never-equal", bool(mixed) and all(all(x == "False" for x in vs) for _, vs in mixed), "mixed-kind rows: %s" % mixed[:6], ce.loc())
+    # the registry dedups with exactly this equality on the class's ast
+    for c in F.closures_of(ac):
+        ex2, ps = run_fn(c, F, BaseModel())
+        for q in ret_paths(ps):
+            r = q.end[1]
+            s_ = S.fstr(r)
+            ok = ("ComparableAst as std::cmp::PartialEq>::eq" in s_ or (r[0] == "binop" and r[1] == "Eq")) and ".ast" in s_ and "arg1" in s_
+            ob("C02.f", "registry-dedup-uses-the-class-equality", ok, "predicate %s" % s_[:120], c.loc())
+
     for pat in (r"ScannerImpl as std::convert::TryFrom<std::vec::Vec<scanner_mode::ScannerMode>>>::try_from$", r"ScannerImpl as std::convert::TryFrom<&\[scanner_mode::ScannerMode\]>>::try_from$"):
         fn = F.fn(pat)
         ctx.analysed_fn(fn)
